@@ -213,6 +213,24 @@ def r3_periodic(repo: Repo, rep):
                         ok = False
                         detail = f"{side} data evaluated on {a[:120]}"
         rep.check(R, ok, fw.site(), fw.fq, "forward evaluates left data on left coordinates and right data on right coordinates", detail, "forward pairing")
+        # the mapping that receives the `_left` / `_right` suffix holds only that side's data (two names for one dict would mix them)
+        mixed = []
+        for e in p.events:
+            if e.value is None:
+                continue
+            for d in ast.walk(e.value):
+                if not (isinstance(d, ast.Dict) and len(d.keys) == 1 and isinstance(d.keys[0], ast.JoinedStr)):
+                    continue
+                lit = "".join(x.value for x in d.keys[0].values if isinstance(x, ast.Constant) and isinstance(x.value, str))
+                side = "left" if "left" in lit else "right" if "right" in lit else None
+                src = d.values[0].value if isinstance(d.values[0], ast.Subscript) else None
+                if side is None or not isinstance(src, ast.Dict):
+                    continue
+                for v in src.values:
+                    if isinstance(v, ast.Call) and isinstance(v.func, ast.Subscript) and "data_functions" in dump(v.func.value) and f"{side}_data_functions" not in dump(v.func.value):
+                        mixed.append(f"`{lit}` entries built from {dump(v.func.value)}")
+        mixed = sorted(set(mixed))
+        rep.check(R, not mixed, fw.site(), fw.fq, "the data renamed for one side stems from that side's data functions only", "; ".join(mixed)[:200], "; ".join(mixed)[:160])
         break
 
 
